@@ -428,3 +428,42 @@ Definition check_scase (c : scase) : list nat :=
       chk 10 (list_eqb (result_eqb (list_eqb (list_eqb Nat.eqb)))
                        (map (fun d => decode J (fst d)) (o_dec c)) (map snd (o_dec c)))
   end.
+
+(* ---------- hypotheses of the C07 theorems, as boolean tests on concrete instances ---------- *)
+Definition gnode (g : graph) (n : nat) : node := nth n (nodes g) dummy_node.
+
+(* what the strict add_arc checked, read with the depot at index 0 (Seq_facts.strict_graph) *)
+Definition strict_graphb (g : graph) : bool :=
+  forallb (fun kv =>
+    match kv with
+    | ((i, j), a) =>
+        (if Nat.eqb i 0
+         then ext_leb (Fin (nlo (gnode g 0) + att a)) (nhi (gnode g j)) &&
+              (if Nat.eqb j 0 then ext_leb (ext_add (nhi (gnode g 0)) (att a)) (nhi (gnode g 0)) else true)
+         else ext_leb (ext_add (nhi (gnode g i)) (att a)) (nhi (gnode g j)))
+    end) (arcs g).
+
+Definition windows_okb (g : graph) : bool :=
+  forallb (fun n => ext_leb (Fin (nlo n)) (nhi n)) (nodes g).
+
+Fixpoint nodup_keysb (l : list (nat * nat)) : bool :=
+  match l with
+  | [] => true
+  | k :: l' => negb (existsb (natpair_eqb k) l') && nodup_keysb l'
+  end.
+
+(* Seq_facts.seq_ok *)
+Definition seq_okb (J : inst) : bool :=
+  nodup_keysb (map fst (arcs (ig J))) && check_arc J (O, O) && Nat.leb 1 (iN J).
+
+(* tags: 13 seq_ok, 11 strict_graph, 12 windows_ok *)
+Definition check_hyp_case (c : scase) : list nat :=
+  match case_inst c with
+  | Err _ => [99%nat]
+  | Ok J => chk 13 (seq_okb J)
+  end.
+Definition check_strict_case (c : scase) : list nat :=
+  match case_inst c with
+  | Err _ => [99%nat]
+  | Ok J => chk 11 (strict_graphb (ig J)) ++ chk 12 (windows_okb (ig J))
+  end.
